@@ -1108,6 +1108,10 @@ func RunC12(ctx *core.Ctx) {
 	go func() { defer wg.Done(); c12RunShard(ctx, "sorted", 0, ctx.Scale(60, 1500)) }()
 	wg.Add(1)
 	go func() { defer wg.Done(); c12RunShard(ctx, "seek", 0, ctx.Scale(300, 6000)) }()
+	for w := 0; w < 2; w++ {
+		wg.Add(1)
+		go func(w int) { defer wg.Done(); c12RunShard(ctx, "variant", w, ctx.Scale(100, 2000)) }(w)
+	}
 	wg.Wait()
 }
 
@@ -1271,6 +1275,8 @@ func c12Worker(args []string) int {
 				c12SortedCase(ctx, ask, r, at)
 			case "seek":
 				c12SeekCase(ctx, ask, r, at)
+			case "variant":
+				c12VariantCase(ctx, r, at)
 			}
 		}()
 		if d != nil {
